@@ -133,7 +133,8 @@ example : WF (.struct [some "payer", some "prog", some "acct"]
 example : flatten [9] false (setToIdl (.struct [none, none] [.opt .info, .fixed [9]]))
     = [placeholder, ⟨false, false, .self⟩] := by decide
 /-- skip in the middle: `{version: u8, #[skip] reserved: u16, limit: u32}` -/
-example : typeToIdlSkip [.int 1 false, .int 2 false, .int 4 false] 1 = .struct [.u8] := by decide
+example : typeToIdlSkip [.int 1 false, .int 2 false, .int 4 false] 1 = .struct [.u8] := by
+  simp [typeToIdlSkip, typeToIdlAll, typeToIdl, intTy]
 /-- `Many` followed by a plain account is refused, never reordered -/
 example : lowerDef (.struct [some "vaults", some "authority"] [.many (.single { writable := true }) 2 (some 2), .single { signer := true }])
     = .error .manyNotLast := by
